@@ -695,6 +695,13 @@ fn maybe_runtype_any_of_discriminated(
                             })
                             .collect::<BTreeSet<_>>();
 
+                        // one tag value shared by every member (spelled differently, e.g. a
+                        // literal and an alias of it) does not discriminate: the mapping entry
+                        // would be this same union again
+                        if discriminator_strings.len() < 2 {
+                            continue;
+                        }
+
                         return Some(runtype_any_of_discriminated(
                             original_runtype,
                             flat_values,
